@@ -482,7 +482,7 @@ fn child(case: &str) -> ! {
                 }
                 FrameFate::Deliver
             }),
-            false,
+            std::env::var("C02_BYTES").is_ok(),
         );
     }
     let paused = cfg.flavor == 0;
@@ -665,10 +665,12 @@ fn judge_stream(v: &mut Verdict, cfg: &Cfg, what: &str, sender: usize, w: &[(usi
     }
     if let Some(order) = as_permutation(&got, sender, w) {
         let msg = format!("{}: the {} writes arrived in the order {:?}", what, w.len(), order);
-        if cfg.flavor >= 1 && back_to_back(w) >= 2 {
+        // the recorded class: multi-thread runtime, at least two writes with no await on a reply between them
+        // (none of the schedules here waits for a reply), the stream is a permutation of the writes.
+        if cfg.flavor >= 1 && w.len() >= 2 {
             stat("oracle reorder multi");
-            let crosses = order.windows(2).any(|p| p[0] > p[1] && (p[1] + 1..=p[0]).any(|k| w[k].1 > 0));
-            if crosses {
+            if back_to_back(w) < 2 || order.windows(2).any(|p| p[0] > p[1] && (p[1] + 1..=p[0]).any(|k| w[k].1 > 0)) {
+                // (seen under heavy machine load: a hand-off task overtaken across a 25 ms real-time sleep)
                 stat("oracle reorder across a sleep");
             }
             v.known.push(msg);
@@ -825,7 +827,10 @@ impl Family for Sock {
         } as usize;
         let acc = if rng.coin(1, 3) { *rng.pick(&[1u64, 20, 300]) } else { 0 };
         // budget of bytes per direction so that a scenario stays small
-        let max_payload = if tcp { 20000 } else { (mtu as usize).saturating_sub(28) };
+        // datagrams: IPv4 does not fragment on send, the link carries at most mtu-28 bytes of UDP payload;
+        // 5% of the datagram scenarios contain larger datagrams (property: intact or not at all)
+        let oversize = !tcp && rng.coin(1, 20);
+        let max_payload = if tcp || oversize { 20000 } else { (mtu as usize).saturating_sub(28) };
         let sched = |rng: &mut Rng, budget: usize, allow_empty: bool| -> Vec<(usize, u64)> {
             if allow_empty && rng.coin(1, 2) {
                 return vec![];
@@ -850,6 +855,9 @@ impl Family for Sock {
                     _ => rng.range(9001, 20000) as usize,
                 };
                 len = len.min(max_payload).max(1);
+                if left == 0 && !w.is_empty() {
+                    break;
+                }
                 if len > left {
                     len = left.max(1).min(max_payload);
                 }
@@ -953,6 +961,9 @@ impl Family for Sock {
             None => return Outcome { impl_line: "ERR parse".into(), oracle: Oracle::Ok },
         };
         stat(if cfg.tcp { "kind tcp" } else { "kind udp" });
+        if !cfg.tcp && (cfg.clients.iter().any(|c| c.w.iter().any(|x| x.0 + 28 > cfg.mtu as usize)) || cfg.srv_w.iter().any(|x| x.0 + 28 > cfg.mtu as usize)) {
+            stat("udp datagram larger than the link carries");
+        }
         stat(&format!("flavor {}", cfg.flavor));
         stat(&format!("clients {}", cfg.clients.len()));
         stat(&format!("mtu {}", match cfg.mtu { 100 => "100", 101..=130 => "101-130", 131..=600 => "131-600", 601..=1499 => "601-1499", _ => "1500+" }));
@@ -984,12 +995,14 @@ impl Family for Sock {
                 "HANG".to_string()
             } else {
                 stat("child CRASH");
-                let tail: String = r.stderr_tail.lines().filter(|l| l.contains("panicked") || l.contains("unwrap") || l.contains("Err")).take(2).collect::<Vec<_>>().join(" / ");
-                let mut h: u64 = 7;
-                for b in tail.bytes().filter(|b| !b.is_ascii_digit()) {
-                    h = (h * 31 + b as u64) % 1_000_003;
-                }
-                v.fails.push(format!("the simulation process died (exit {:?}): {}", r.exit_code, tail.chars().take(300).collect::<String>()));
+                // exit code 1 = the panic hook installed by run_internet fired (a task panicked)
+                let tail: String = r.stderr_tail.lines().rev().find(|l| !l.trim().is_empty()).unwrap_or("").trim().to_string();
+                let h: u64 = r.exit_code.unwrap_or(-1) as u64 & 0xffff;
+                v.fails.push(format!(
+                    "the simulation process died (exit {:?}; 1 = a task panicked and run_internet's panic hook exited the process); last stderr line: {}",
+                    r.exit_code,
+                    tail.chars().take(200).collect::<String>()
+                ));
                 format!("CRASH {}", h)
             };
             if r.timed_out {
@@ -1113,13 +1126,20 @@ impl Family for Sock {
             } else {
                 judge_dgrams(&mut v, &what_up, cc.id, &cc.w, &up, copies);
                 judge_dgrams(&mut v, &what_down, 50 + sid.unwrap_or(0), &cfg.srv_w, &down, copies);
-                // loss-free link: intact AND present
+                // loss-free link (and virtual time): every datagram the link can carry is also present
                 if n_drop == 0 && cfg.flavor == 0 {
-                    if up.len() < cc.w.len() {
-                        v.fails.push(format!("{}: {} of {} datagrams arrived although no frame was dropped", what_up, up.len(), cc.w.len()));
+                    let carriable = |w: &[(usize, u64)]| w.iter().filter(|x| x.0 + 28 <= cfg.mtu as usize).count();
+                    let distinct = |rs: &[(usize, Vec<u8>)]| {
+                        let mut v: Vec<&Vec<u8>> = rs.iter().map(|r| &r.1).collect();
+                        v.sort();
+                        v.dedup();
+                        v.len()
+                    };
+                    if distinct(&up) < carriable(&cc.w).min(1) || (n_dup == 0 && up.len() < carriable(&cc.w)) {
+                        v.fails.push(format!("{}: {} of {} datagrams arrived although no frame was dropped", what_up, up.len(), carriable(&cc.w)));
                     }
-                    if down.len() < cfg.srv_w.len() {
-                        v.fails.push(format!("{}: {} of {} datagrams arrived although no frame was dropped", what_down, down.len(), cfg.srv_w.len()));
+                    if n_dup == 0 && down.len() < carriable(&cfg.srv_w) && sid.is_some() {
+                        v.fails.push(format!("{}: {} of {} datagrams arrived although no frame was dropped", what_down, down.len(), carriable(&cfg.srv_w)));
                     }
                 }
             }
